@@ -9,6 +9,7 @@ A unit is a python file /verif/contracts/verus/<unit>.py defining UNIT = {...}:
   items:    list of
      {"kind": "struct", "name": N, "keep": [field names], "add": [extra field lines]}
      {"kind": "const",  "name": N}
+     {"kind": "unit_struct", "name": N}   (a field-less `struct N;`)
      {"kind": "fn", "name": N, "impl": "<exact impl header text without `{`>" | None,
       "ret_name": "r", "requires": [...], "ensures": [...], "attrs": [...],
       "splices": [{"after": "<exact trimmed source line>", "insert": [lines]}],       # proof/assert/assume lines
@@ -259,6 +260,13 @@ def generate(vu, repo_root):
         txt = re.sub(r"//[^\n]*", "", txt)
         out.append(rw(txt, "enum " + it["name"]))
         diffs.append("enum %s (%s): copied verbatim (comments and derive attributes dropped)" % (it["name"], isrc))
+        continue
+      if it["kind"] == "unit_struct":
+        ms = re.findall(r"^[ \t]*(?:pub(?:\([a-z]+\))?\s+)?struct\s+%s\s*;" % re.escape(it["name"]), src, re.M)
+        if len(ms) != 1:
+          raise Structural("anchor-lost %s: unit struct %s found %d times" % (isrc, it["name"], len(ms)))
+        out.append("pub struct %s;" % it["name"])
+        diffs.append("unit struct %s (%s): copied verbatim (derive attributes dropped)" % (it["name"], isrc))
         continue
       if it["kind"] == "struct":
         head, body = extract_struct(src, it["name"], isrc)
